@@ -186,7 +186,7 @@ func record(c Case, out *outcome) {
 		r.LabelN(l, int64(n))
 	}
 	for i := 0; i < out.excluded; i++ {
-		r.Exclude(knownSlug + ": a process about to read a node it wrote earlier and that another process replaced since was restarted first")
+		r.Exclude(knownSlug + ": a process about to use a node it wrote earlier and that another process replaced since was restarted, or had its L1 nodes evicted, first")
 	}
 	for _, e := range out.commitErrs {
 		r.Sample("commit-failed", e)
